@@ -70,8 +70,9 @@ RULE = (
     "counted non-trivial (>=2 processes, rewrite due) and distinct by (n, state, kind, stagger, depth, repetition index)."
 )
 ASSUMPTIONS = [
-    "mtimes are whole seconds (os.stat()[ST_MTIME] truncates; sub-second ordering is outside the statement as read "
-    "by the design: 'module mtime < source mtime (whole seconds)')",
+    "staleness is decided on whole seconds (os.stat()[ST_MTIME] truncates; sub-second ordering is outside the statement as "
+    "read by the design: 'module mtime < source mtime (whole seconds)'); histories also give the two files sub-second parts "
+    "(.25/.75, .5/.5, .75/.25), which must not change any decision",
     "both interpreter configurations are explored: bytecode writing off (parts i, ii, iii; forced with "
     "sys.dont_write_bytecode=True around every Template()) and on (parts i-pyc and the pyc-* states of ii; switched on "
     "only around Template() so that nothing is written next to /repo).  Whoever replaces a module file by another "
@@ -495,6 +496,7 @@ def history_strategy(pyc=False):
         "depth": st.integers(0, 2),
         "dir_pre": st.booleans(),
         "ops": st.lists(op.map(list), min_size=1, max_size=12),
+        "frac": st.just(None) if pyc else st.sampled_from([None, None, [0.25, 0.75], [0.5, 0.5], [0.75, 0.25]]),
     })
 
 
@@ -508,7 +510,9 @@ def check_history(case, ev=None):
     """
     kind, depth, ops = case["kind"], case["depth"], case["ops"]
     pyc = bool(case.get("pyc"))
-    labels = []
+    # sub-second parts of the source / module mtimes (the model, like the statement, compares whole seconds)
+    fs, fm = case.get("frac") or (0, 0)
+    labels = ["i:frac:%s/%s" % (fs, fm)] if (fs or fm) else []
     pyc_entry = None  # (mtime second, size, sha1 of the module source it was compiled from) as modelled by the harness
     hazards = 0
     if pyc:
@@ -523,7 +527,7 @@ def check_history(case, ev=None):
         moddir = os.path.join(root, "mods")
         mpath = module_path(moddir, uri)
         ver, src_mtime = 0, T0
-        write_file(src, source_text(kind, ver).encode("utf-8"), src_mtime)
+        write_file(src, source_text(kind, ver).encode("utf-8"), src_mtime + fs)
         if case["dir_pre"]:
             os.makedirs(os.path.dirname(mpath))
         mod = None  # {"bytes", "mtime", "magic_ok", "gen_from"}
@@ -538,7 +542,7 @@ def check_history(case, ev=None):
                 src_mtime = base + (delta if rel == "newer" else -delta if rel == "older" else 0)
                 if not same:
                     ver += 1
-                write_file(src, source_text(kind, ver).encode("utf-8"), src_mtime)
+                write_file(src, source_text(kind, ver).encode("utf-8"), src_mtime + fs)
                 labels.append("i:src:%s%s%s" % (rel, ":touch" if same else "", "" if mod else ":nomodule"))
                 if rel != "newer" and mod:
                     pending_interesting = True
@@ -565,7 +569,7 @@ def check_history(case, ev=None):
                         "i:construct-raised")
                 data = mark_image(swap_magic(img[0], same_width_magic()), ver)
                 m = int(time.time())
-                write_file(mpath, data, m)
+                write_file(mpath, data, m + fm)
                 rm_pyc(mpath)
                 pyc_entry = None
                 mod = {"bytes": data, "mtime": m, "magic_ok": False, "gen_from": "foreign", "now": True}
@@ -582,7 +586,7 @@ def check_history(case, ev=None):
                     data = (FOREIGN % {"magic": magic, "filename": src, "uri": uri}).encode("utf-8")
                     gen_from = "foreign"
                     labels.append("i:magic:foreign:" + rel)
-                write_file(mpath, data, m)
+                write_file(mpath, data, m + fm)
                 rm_pyc(mpath)  # whoever installs another generator's module is not mako; it leaves no bytecode behind
                 pyc_entry = None
                 mod = {"bytes": data, "mtime": m, "magic_ok": False, "gen_from": gen_from}
@@ -656,14 +660,14 @@ def check_history(case, ev=None):
                             "(new module has the whole-second mtime and size of the replaced one: %s)" % (sv, hazard)),
                             "i:render-after-rewrite" + (":stale-bytecode" if sv is not None else ""))
                     m = src_mtime + adv
-                    os.utime(mpath, (m, m))
+                    os.utime(mpath, (m + fm, m + fm))
                     mod = {"bytes": after[0], "mtime": m, "magic_ok": True, "gen_from": ver}
                     labels.append("i:restamp:%+d" % adv)
                 else:
                     if calls:
                         bad(i, "no rewrite due (module mtime %d >= source mtime %d, magic ok) but module_writer was "
                             "called %d time(s)" % (mod["mtime"], src_mtime, len(calls)), "i:writer-called-when-not-due")
-                    if after is None or after[0] != mod["bytes"] or after[1] != mod["mtime"] * 10 ** 9:
+                    if after is None or after[0] != mod["bytes"] or after[1] != mod["mtime"] * 10 ** 9 + int(fm * 10 ** 9):
                         bad(i, "no rewrite due (module mtime %d >= source mtime %d, magic ok) but the module file changed: "
                             "before %s mtime %d, after %s mtime_ns %s" % (
                                 mod["mtime"], src_mtime, short(mod["bytes"]), mod["mtime"],
